@@ -244,6 +244,9 @@ func Run(r *mc.Run) {
 	dpkgCross(r, r.Pick(600, 6000))
 
 	sigma13 := gen.Chars("0129azAZ~+-.:")
+	// alphabet audit: characters / strings / numbers a change introduced into the code join the alphabets of this run
+	sigma13 = append(sigma13, gen.AuditChars(gen.Versionish, 3)...)
+	auditToks := append(gen.AuditStrings(gen.Versionish, 8), gen.AuditIntStrings(0, 1<<62, 9)...)
 	L := r.Pick(3, 4)
 	strs := gen.AllStrings(sigma13, L)
 	partPairs(r, "sigma13", strs, nil, map[string]interface{}{"alphabet": "0129azAZ~+-.:", "max_len": L, "strings": len(strs)})
@@ -257,13 +260,20 @@ func Run(r *mc.Run) {
 	partPairs(r, "sigma6-deep", deep, bs, map[string]interface{}{"alphabet": "01a~+.", "max_len_a": r.Pick(5, 6), "max_len_b": r.Pick(5, 4), "strings": len(deep)})
 
 	toks := gen.Dedup(gen.AllStrings([]string{"0", "00", "1", "9", "09", "10", "99999999999999999999", "100000000000000000000", "a", "~", "+", "."}, 3))
+	if len(auditToks) > 0 {
+		toks = gen.Dedup(append(toks, gen.AllStrings(append([]string{"0", "1", "9", "a", "~", "+", ".", "-"}, auditToks...), 3)...))
+	}
 	partPairs(r, "digit-tokens", toks, nil, map[string]interface{}{"tokens": "0 00 1 9 09 10 99999999999999999999 100000000000000000000 a ~ + .", "max_tokens": 3, "strings": len(toks)})
 
 	// full versions
 	var full []In
-	ups := gen.AllStrings(gen.Chars("01a~+.-:"), 2)
-	revs := []string{"", "0", "00", "1", "~", "a", "+"}
-	for _, e := range []uint{0, 1, 2, 10, 1 << 31, 1 << 32, 1<<63 - 1} {
+	ups := append(gen.AllStrings(gen.Chars("01a~+.-:"), 2), auditToks...)
+	revs := append([]string{"", "0", "00", "1", "~", "a", "+"}, auditToks...)
+	epochs := []uint{0, 1, 2, 10, 1 << 31, 1 << 32, 1<<63 - 1}
+	for _, v := range gen.AuditInts(0, 1<<62, 6) {
+		epochs = append(epochs, uint(v))
+	}
+	for _, e := range epochs {
 		for _, u := range ups {
 			for _, rv := range revs {
 				full = append(full, In{AE: e, AV: u, AR: rv})
